@@ -2,7 +2,7 @@
 import ast
 
 from py2lean_types import (Unsupported, Impure, TInt, TBool, TStr, TNone, TRange, TErased, TList, TOpt, TTuple,
-                           TDict, TObj, TAbs, TExc, TUnion, TVar, THet, TBuilder, INT, BOOL, STR, NONE, RANGE, ERASED,
+                           TDict, TObj, TAbs, TExc, TUnion, TVar, THet, TBuilder, TEffect, TEffectClass, TMaybe, INT, BOOL, STR, NONE, RANGE, ERASED,
                            resolve, unify, join, coerce, proj, iter_elem)
 from py2lean_expr import src, indent, TyRef, lstr
 
@@ -171,6 +171,31 @@ class CallMixin:
             m = getattr(self, "b_" + f.id, None)
             if m is not None:
                 return m(e, env, k)
+            if f.id in env and isinstance(resolve(env[f.id][1]), TMaybe) \
+                    and isinstance(resolve(resolve(env[f.id][1]).elem), TObj):
+                # an object assigned on some paths only: reading it may be UnboundLocalError
+                def with_obj(oc, ot):
+                    fn = self.reg.method(self.reg.classes[resolve(ot).cls], "__call__")
+                    if fn is None:
+                        raise Unsupported("__call__ of {} is not translated".format(resolve(ot).cls))
+                    return self.call_function(fn, oc, e, env, k)
+                return self.e_Name(f, env, with_obj)
+            if f.id in env and isinstance(resolve(env[f.id][1]), TObj):     # obj(…) is obj.__call__(…)
+                oc, ot = env[f.id]
+                fn = self.reg.method(self.reg.classes[resolve(ot).cls], "__call__")
+                if fn is None:
+                    raise Unsupported("__call__ of {} is not translated".format(resolve(ot).cls))
+                return self.call_function(fn, oc, e, env, k)
+            if f.id in self.reg.abs_ctors:                  # an interface object made by hand-written glue
+                lean, ptys, rty, raises = self.reg.abs_ctors[f.id]
+                self.args_no_kw(e, len(ptys))
+
+                def fin_a(vs):
+                    code = " ".join([lean] + [coerce(c, t, pt) for (c, t), pt in zip(vs, ptys)])
+                    if raises:
+                        return self.bind(code, rty, k, "g")
+                    return k("(" + code + ")", rty)
+                return self.exprs(list(e.args), env, fin_a)
             if f.id in self.reg.builders:                   # an object that is built by commands: start its log
                 b = self.reg.builders[f.id]
                 self.args_no_kw(e, len(b["ctor"]))
@@ -188,6 +213,16 @@ class CallMixin:
             if fn is not None:
                 return self.call_function(fn, None, e, env, k)
             raise Unsupported("call of " + f.id)
+        if isinstance(f, ast.Attribute) and src(f) in self.reg.abs_ctors:     # Class.constructor(…): hand-written glue
+            lean, ptys, rty, raises = self.reg.abs_ctors[src(f)]
+            self.args_no_kw(e, len(ptys))
+
+            def fin_ac(vs):
+                code = " ".join([lean] + [coerce(c, t, pt) for (c, t), pt in zip(vs, ptys)])
+                if raises:
+                    return self.bind(code, rty, k, "g")
+                return k("(" + code + ")", rty)
+            return self.exprs(list(e.args), env, fin_ac)
         if isinstance(f, ast.Attribute):
             return self.method_call(e, env, k)
         raise Unsupported("call " + src(e))
@@ -231,6 +266,15 @@ class CallMixin:
                 and a.args[0].args[1].value == 2:
             return self.expr(a.args[0].args[0], env, lambda c, t: self.as_int(c, t, lambda v: self.bind(
                 "Py.ceilLog2 {}".format(v), INT, k, "b")))
+        # idiom: int(sqrt(e)) — a float computation that stays ABSTRACT: the function `float_isqrt` is a parameter of the
+        # generated definition (the theorems instantiate it with the exact integer square root, the self-test with CPython's)
+        if isinstance(a, ast.Call) and src(a.func) in ("sqrt", "math.sqrt") and len(a.args) == 1 and not a.keywords:
+            ob = "float_isqrt"
+            if not any(n == ob for n, _, _ in self.observers):
+                from py2lean_types import TFun
+                self.observers.append((ob, TFun([INT], INT, True), ("call", "int(sqrt(·))", None)))
+            return self.expr(a.args[0], env, lambda c, t: self.as_int(c, t, lambda v: self.bind(
+                "{} {}".format(ob, v), INT, k, "z")))
         return self.expr(a, env, lambda c, t: self.as_int(c, t, lambda v: k(v, INT)))
 
     def b_sum(self, e, env, k):
@@ -334,12 +378,18 @@ class CallMixin:
 
         def fin(vs):
             (l, tl), (n, tn) = vs
-            return self.as_list(l, tl, lambda ll, el: self.as_int(n, tn, lambda nv: k(
-                "({} {} ({}).toNat)".format(leanfn, ll, nv) if leanfn != "permsK" else "(permsK ({}).toNat {})".format(nv, ll),
-                TList(TList(el)))))
+            # a negative `r` is a ValueError of itertools ("r must be non-negative"): Py.itertoolsR
+            return self.as_list(l, tl, lambda ll, el: self.as_int(n, tn, lambda nv: self.bind(
+                "Py.itertoolsR {}".format(nv), None, lambda r, _t: k(
+                    "({} {} {})".format(leanfn, ll, r) if leanfn != "permsK" else "(permsK {} {})".format(r, ll),
+                    TList(TList(el))), "r")))
         return self.exprs(e.args, env, fin)
 
     def b_combinations(self, e, env, k):
+        if len(e.args) == 2 and not e.keywords and isinstance(e.args[1], ast.Constant) and e.args[1].value == 2:
+            # combinations(l, 2): the pairs (unpacked by `for a, b in …`)
+            return self.expr(e.args[0], env, lambda c, t: self.as_list(c, t, lambda l, el: k(
+                "(Py.combos2 {})".format(l), TList(TTuple([el, el])))))
         return self.itertools("combos", e, env, k)
 
     def b_combinations_with_replacement(self, e, env, k):
@@ -356,6 +406,12 @@ class CallMixin:
                 return self.as_list(l, tl, lambda ll, el: self.as_int(n, tn, lambda nv: k(
                     "(productRep {} ({}).toNat)".format(ll, nv), TList(TList(el)))))
             return self.exprs([e.args[0], kws["repeat"]], env, fin)
+        if not kws and len(e.args) == 2 and not any(isinstance(a, ast.Starred) for a in e.args):
+            def fin2(vs):
+                (a, ta), (b, tb) = vs
+                return self.as_list(a, ta, lambda la, ea: self.as_list(b, tb, lambda lb, eb: k(
+                    "(Py.product2 {} {})".format(la, lb), TList(TTuple([ea, eb])))))
+            return self.exprs(list(e.args), env, fin2)
         if not kws and len(e.args) == 1 and isinstance(e.args[0], ast.Starred):
             def fin1(c, t):
                 t = resolve(t)
@@ -413,13 +469,13 @@ class CallMixin:
             codes = [None] * len(params)
             for (i, _a), (c, t) in zip(items, vs):
                 pty = params[i][1]
-                if isinstance(pty, TErased):
+                if isinstance(pty, (TErased, TEffectClass)):
                     codes[i] = None
                     continue
                 codes[i] = coerce(c, t, pty)
             out = []
             for i, (pn, pty) in enumerate(params):
-                if isinstance(pty, TErased):
+                if isinstance(pty, (TErased, TEffectClass)):
                     continue
                 if codes[i] is None:
                     if i in given:
@@ -435,8 +491,8 @@ class CallMixin:
                 out.append(self.observer_for_call(fn, oname, oty, how, e, items, params))
             return self.finish_call(fn, selfcode, out, k)
         # erased arguments are not evaluated
-        evald = [(i, a) for i, a in items if not isinstance(params[i][1], TErased)]
-        skipped = [(i, a) for i, a in items if isinstance(params[i][1], TErased)]
+        evald = [(i, a) for i, a in items if not isinstance(params[i][1], (TErased, TEffectClass))]
+        skipped = [(i, a) for i, a in items if isinstance(params[i][1], (TErased, TEffectClass))]
         items = evald + skipped
 
         def fin2(vs):
@@ -471,18 +527,44 @@ class CallMixin:
             except ValueError:
                 return "(Except.error Err.valueError)"
         # pass our own observer of the same label through
+        if isinstance(call_args, tuple) and call_args[0] == "star":
+            # the starred sequence, in our own names
+            sidx = names.index(call_args[1]) if call_args[1] in names else None
+            snode = [a for i, a in items if i == sidx]
+            if not snode or not isinstance(snode[0], ast.Name):
+                raise Unsupported("label check over a sequence that is not a plain argument")
+            call_args = ("star", snode[0].id)
         own = self.observer_param(kind, pname if not given else src(given[0]), call_args)
         return own
 
     def method_call(self, e, env, k):
         f = e.func
         recv = f.value
+        if src(f) in getattr(self.reg, "identity_calls", ()) and e.args:
+            return self.expr(e.args[0], env, k)      # e.g. Graph.normalize(G, 'G') on an object that is a graph already
         # Base.__init__(self, …) is handled at statement level; here: value-returning method calls
         if isinstance(recv, ast.Name) and recv.id == "self" and self.cls is not None and not self.in_init:
             fn = self.reg.method(self.cls, f.attr)
             if fn is None:
                 raise Unsupported("method self.{} is not translated".format(f.attr))
             return self.call_function(fn, "self", e, env, k)
+
+        ekey = self.effect_key(recv, env) if hasattr(self, "effect_key") else None
+        if ekey is not None:
+            # an observer of the effect object (its state is not changed): a value
+            et = resolve(env[ekey][1])
+            prim = self.reg.effects[et.name]["methods"].get(f.attr)
+            if prim is None or prim.get("ret") is None:
+                raise Unsupported("a state-changing call of the {} object inside an expression: {}".format(et.name, src(e)))
+            params = [(p_[0], p_[1]) for p_ in prim["params"]]
+            defaults = {p_[0]: p_[2] for p_ in prim["params"] if len(p_) > 2}
+
+            def fin_e(codes, _given):
+                call = " ".join([prim["lean"], env[ekey][0]] + codes)
+                if prim.get("raises"):
+                    return self.bind(call, prim["ret"], k, "o")
+                return k("(" + call + ")", prim["ret"])
+            return self.bind_args(params, defaults, e, env, fin_e)
 
         def with_recv(c, t):
             t = resolve(t)
